@@ -48,6 +48,10 @@ CHECKS = {
    technique='bounded-exhaustive enumeration of inputs / operation histories on the real code against a reference model (explicit-state, no sampling)',
    text='For every set of <= 4 (thorough <= 5) versions from a stable/pre-release/dev alphabet with every available/current/pre-release/blacklisted vector and all 24 registry settings, selectVersion picks exactly the version the documented order prescribes, and a blacklisted one only as last resort. For every history to depth 3 (thorough 4) of AddVersion/Blacklist/GetFile/selectVersion/Purge(keep)/flag toggles from 8 pools on a real storage directory (BFS, de-duplicated on settings, ordered version list with flags, selected, active, files): Blacklist refuses the last non-blacklisted version; GetFile hands out the selected version; after Purge the files of the active, selected and newest stable version and of >= keep further versions exist and no version is listed available without its file. All 1.6M (3.8M) identifier x version pairs of the file-name grammar convert both ways without loss; GetSelectedVersions reports the selections.',
    note="Trusted: the harness's own semver comparison and cascade (~150 lines). A stale SelectedVersion between AddVersion and the next selection is documented behaviour and not asserted. Not covered: the download branch of GetFile, signature verification, resources with an empty version list, concurrency."),
+ "C15": dict(engine="S", category="model_checking", design_ref="DESIGN.md §2, §6 C15",
+   technique="stateless model checking of the implementation: deviation-bounded exhaustive enumeration of thread interleavings under a controlled scheduler with virtual time",
+   text="For concurrency limits 2 and 3 and limit+1 (thorough limit+2) microtasks submitted concurrently from as many threads - every multiset of {medium, low} priority x {Run, Start, Signal} variant, error and panic outcomes, an optional high-priority task, done() called three times (twice concurrently) - every schedule of the source-instrumented modules package with at most 2 (thorough 3) deviations from each of two default schedulers is executed from a freshly reset world. Checked: the number of medium/low bodies between begin and end never exceeds the limit while the virtual clock reads 0 and no high-priority body runs; every body ran exactly once; blocking variants return the body's error (IsPanic for panics); afterwards the global and per-module counts are zero, further microtasks are admitted without the virtual clock moving, and Shutdown is not held up; no deadlock, no uncontained panic.",
+   note="Trusted: the scheduler's model of Go synchronisation (shim/, selftests), sequential consistency, data-race freedom outside instrumented operations. Operations inside package log are switch points only when they block. More than limit+2 microtasks, limits above 3 and maximum delays that actually expire are not covered."),
 }
 
 NOT_BUILT_REASON = "check not built yet (work in progress; planned, see DESIGN.md section 6)"
